@@ -133,7 +133,7 @@ PLANS = {
     "C04": plan(["C04_LogMatching", "C04_LeaderAppendOnly"], [REPL_Q3, REPL_Q2], [REPL_T3, REPL_T2], ["G_ConsistencyCheck", "G_TruncateOnConflict", "G_StaleTermAppend"], fuzz=("core", "batch", "part")),
     "C06": plan(["C06_MajorityDurable"], [REPL_Q2, CONF_Q12, CONF_Q21], [REPL_T2, CONF_T], ["G_FlushBeforeAck", "G_LeaderFlush", "G_MajorityOfVoters", "FixD2"], sim=("core", "conf")),
     "C08": plan(["C08_OneVoterDelta", "C08_ConfigOnlyWhenSafe", "C19_LatestIsNewest", "C01_ElectionSafety", "C02_CommittedAgree", "C02_CommittedStable"], [CONF_Q12, CONF_Q21], [CONF_T], ["G_ConfigCommittedFirst", "G_OwnTermBeforeConfig"], sim=("conf",)),
-    "C11": plan(["C11_OnlyVotersCampaign", "C11_OnlyVotersLead", "C11_PromoteAfterRound", "C11_StopOnlyWhenRemoved", "C11_DemotedLeaderStepsDown", "C06_MajorityDurable"],
+    "C11": plan(["C11_OnlyVotersCampaign", "C11_OnlyVotersLead", "C11_PromoteAfterRound", "C11_StopOnlyWhenRemoved", "C11_DemotedLeaderStepsDown", "C11_OnlyVotersVote", "C06_MajorityDurable"],
                 [CONF_Q12, CONF_Q21], [CONF_T], ["G_NonVoterNoElection", "G_PromoteAfterRound", "G_StepDownWhenDemoted", "G_MajorityOfVoters", "FixD14"], sim=("conf",)),
     "C09": plan(["C09_SnapshotCommitted", "C09_NoViewInvalidation", "C03_FsmIsCommittedPrefix", "C03_FsmNotAhead", "C02_CommittedAgree", "C04_LogMatching", "C19_Ordered"], [SNAP_Q], [SNAP_T], ["FixD5", "FixD11", "FixD19"], sim=("snap",), fuzz=("snap", "part")),
     "C12": plan(["C12_LabelOK"], [SNAP_Q], [SNAP_T], ["FixD4", "FixD20"], sim=("snap", "conf"), fuzz=("snap", "conf", "fairconf")),
